@@ -39,6 +39,11 @@ class C03(SessionCheck):
         for i in range(3 if tier == 'quick' else 18):
             out.append({'kind': 'two', 'sc': {'end': ends[i % 3], 'held': 1 + i % 3, 'profile': ['default', 'junos', 'nexus'][(i // 3) % 3],
                                               'transport_a': ['unix', 'ssh', 'tls'][(i // 3) % 3] if tier == 'thorough' else 'unix', 'transport_b': 'unix'}})
+        # exactly ONE request outstanding when an <rpc-reply> arrives that is not its answer (no id / an id nobody used / a second copy of
+        # an earlier reply): it may fail the request or the session, never complete it
+        for i, st in enumerate(['no-id', 'unknown-id', 'duplicate']):
+            out.append({'kind': 'stray', 'sc': {'stray': st, 'transport': 'unix', 'profile': ['default', 'junos', 'iosxe'][i % 3],
+                                                'server_caps': None}})
         # MANY requests outstanding at the same time on one session (beyond any table size a tidy-up might assume), some never answered
         sizes = [(1100, 0, 'fifo'), (1300, 1100, 'shuffled')] if tier == 'quick' else [(1100, 0, 'fifo'), (2500, 0, 'lifo'), (4200, 4000, 'shuffled'), (70000, 0, 'fifo')]
         for n, stale, order in sizes:
@@ -52,19 +57,22 @@ class C03(SessionCheck):
         if case.get('kind') == 'many':
             from impl.e2e import run_many
             return run_many(case['sc'])
+        if case.get('kind') == 'stray':
+            from impl.e2e import run_stray
+            return run_stray(case['sc'])
         return super().run_impl(case)
 
     def nontrivial(self, case, io):
-        return True if case.get('kind') in ('two', 'many') else super().nontrivial(case, io)
+        return True if case.get('kind') in ('two', 'many', 'stray') else super().nontrivial(case, io)
 
     def shrink(self, case, still_fails):
-        return case if case.get('kind') in ('two', 'many') else super().shrink(case, still_fails)
+        return case if case.get('kind') in ('two', 'many', 'stray') else super().shrink(case, still_fails)
 
     def model_lines(self, case):
-        return [] if case.get('kind') in ('two', 'many') else super().model_lines(case)
+        return [] if case.get('kind') in ('two', 'many', 'stray') else super().model_lines(case)
 
     def compare(self, case, io, mo):
-        return None if case.get('kind') in ('two', 'many') else super().compare(case, io, mo)
+        return None if case.get('kind') in ('two', 'many', 'stray') else super().compare(case, io, mo)
 
     def oracle_e2e(self, case, io):
         if io.get('connect') != 'ok':
@@ -95,6 +103,14 @@ class C03(SessionCheck):
             if not io['b_connected'] or io['b_after'] != 'ok':
                 return ('C03:other-session-disturbed', 'session B was no longer usable after session A ended (%s): connected=%s, next request: %s' % (
                     sc['end'], io['b_connected'], io['b_after']))
+            return None
+        if case.get('kind') == 'stray':
+            if io.get('connect') != 'ok':
+                return ('C03:e2e-connect', 'connect failed: %s' % io.get('connect'))
+            sec = io.get('second') or ['none']
+            if sec[0] == 'reply' and (sec[1] != io.get('own_id') or not sec[2]):
+                return ('C03:foreign-reply', 'with one request outstanding the server sent an <rpc-reply> that is not its answer (%s); the request completed with '
+                        'that reply (message-id %r, own id %r)' % (case['sc']['stray'], sec[1], io.get('own_id')))
             return None
         if case.get('kind') == 'many':
             sc = case['sc']
